@@ -419,21 +419,38 @@ impl Network {
         let mut latest_datetime = DateTime::Earliest;
 
         // add overflow depot:
-        // its has infinity capacity for all types (i.e., service trips * maximal_formation_count)
+        // its has infinity capacity for all types (i.e., service trips * maximal_formation_count
+        // + maintenance tracks)
         // but it is located Nowhere, i.e. Distance is Infinity to all other locations
         let number_of_service_nodes = service_trips.values().map(|vec| vec.len()).sum::<usize>();
         let max_formation_count = vehicle_types
             .iter()
             .map(|vt| {
-                vehicle_types
-                    .get(vt)
-                    .unwrap()
-                    .maximal_formation_count()
-                    .unwrap_or(1)
+                let vehicle_type = vehicle_types.get(vt).unwrap();
+                vehicle_type.maximal_formation_count().unwrap_or_else(|| {
+                    // unbounded formations: as many vehicles as the most demanding trip requires
+                    service_trips
+                        .get(&vt)
+                        .into_iter()
+                        .flatten()
+                        .map(|trip| {
+                            trip.passengers()
+                                .div_ceil(vehicle_type.capacity())
+                                .max(trip.seated().div_ceil(vehicle_type.seats()))
+                        })
+                        .max()
+                        .unwrap_or(1)
+                        .max(1)
+                })
             })
             .max()
             .unwrap_or(1);
-        let overflow_capacity = number_of_service_nodes as VehicleCount * max_formation_count;
+        let number_of_maintenance_tracks = maintenance_slots
+            .iter()
+            .map(|slot| slot.track_count())
+            .sum::<VehicleCount>();
+        let overflow_capacity = number_of_service_nodes as VehicleCount * max_formation_count
+            + number_of_maintenance_tracks;
         let overflow_depot_id = DepotIdx::from(depots.len() as Idx);
         let overflow_depot = Depot::new(
             overflow_depot_id,
